@@ -101,8 +101,12 @@ class Rec:
         c['nfail'] += 1
         if wclass is None:
             w = ''
-            if isinstance(got, str) and (got.startswith('EXCEPTION ') or got.startswith('raises ')):
-                w = 'exc:' + got.split()[1].rstrip(':')
+            if isinstance(got, str) and got.startswith('EXCEPTION '):
+                t, _, msg = got[10:].partition(': ')
+                w = 'exc:%s:%s' % (t, msg[:60])
+            elif isinstance(got, str) and got.startswith('raises '):
+                t, _, msg = got[7:].partition(': ')
+                w = 'raises:%s%s' % (t, (':' + msg[:60]) if msg else '')
         else:
             w = wclass if isinstance(wclass, str) else wclass(args, exp, got)
         lst = c['fails'].setdefault(w or '', [])
@@ -238,6 +242,15 @@ def run(modname, tier='quick', seed=None, src_dir=None, only=None, jobs=None, ti
     tier = tier if tier in ('quick', 'thorough') else 'quick'
     jobs = jobs or int(os.environ.get('VERIF_JOBS', '16') or 16)
     t0 = time.time()
+    try:
+        return _run_in_overlay(cbuild, mod, modname, tier, seed, src_dir, only, jobs, timeout, t0)
+    except cbuild.BuildError as ex:
+        return {'functions': [], 'bounded': [], 'assumptions': [], 'trusted': [], 'results': [
+            {'id': 'bounded.%s.build' % mod.AREA, 'kind': 'engine', 'clause': 'the C sources of the current tree compile (overlay build)', 'status': 'error', 'backend': 'gcc',
+             'seconds': time.time() - t0, 'detail': str(ex)[-4000:], 'witness': None, 'replayed': False}]}
+
+
+def _run_in_overlay(cbuild, mod, modname, tier, seed, src_dir, only, jobs, timeout, t0):
     with cbuild.overlay(mod.MODULES, src_dir=src_dir) as ov:
         out = os.path.join(os.path.dirname(str(ov)), 'result.json')
         cmd = [sys.executable, '-m', modname, '--child', '--tier', tier, '--seed', str(seed), '--out', out, '--jobs', str(jobs)]
